@@ -122,8 +122,9 @@ CHECKS = {
         'interpreter obtained, match the denotation (sink, commit list, loads, one call per task), and the segment must satisfy '
         'wfb; the recorded order of Table.add calls must equal, element for element, the Gallina model of Traversal.each '
         '(Model/C01Each.v: depth-first over ordered subscription lists, trained subscribers only at the tail), which is proved '
-        'duplicate-free and in range (C01_traversal_partial). PARTIAL in: the traversal reaching every node of a connected '
-        'segment (computed per case, not proved), the truthiness test of Preset.reduce, the runners executing the table (C02).',
+        'duplicate-free, in range and exhaustive on connected segments (C01_traversal), so that C01_compile_segment needs no '
+        'hypothesis about the visiting order: a well-formed connected segment compiles correctly in the traversal\'s own order. '
+        'PARTIAL only in what is outside the models: the truthiness test of Preset.reduce and the runners executing the table (C02).',
         BASE_NOTE + 'The theorems are about the Gallina compiler model; its identity with forml/flow/_code/compiler.py is checked by '
         'symbol-for-symbol comparison on the generated segments, not proved.',
         'DESIGN.md section 5 C01 and section 10.9',
